@@ -529,6 +529,16 @@ Definition reaches (e : env) (cl : cluster) (k : kind) (ns name : string) (r : r
   | KDos => finds dos_checker ns name r
   end.
 
+(* Everything the Configuration serves.  Configuration.findResourcesForResourceReference walks c.hosts
+   and c.listenerHosts and asks the checker about every resource independently of all the others (kind,
+   namespace, name or host of one resource never hide another one); the sync functions then regenerate
+   exactly the resources found.  (For EndpointSlices this is a lower bound, see [reaches].) *)
+Definition found_set (c : checker) (ns name : string) (served : list resource) : list resource :=
+  filter (finds c ns name) served.
+
+Definition reached_set (e : env) (cl : cluster) (k : kind) (ns name : string) (served : list resource) : list resource :=
+  filter (reaches e cl k ns name) served.
+
 (* ------------------------------------------------------------------ events *)
 
 Inductive op := Add | Update | Delete.
